@@ -3,4 +3,7 @@ package c41
 import "testing"
 
 // TestZZZCleanup deletes the scratch modules and binaries of this process (sorts after every other test).
-func TestZZZCleanup(t *testing.T) { cleanupScratch() }
+func TestZZZCleanup(t *testing.T) {
+	closeRunners()
+	cleanupScratch()
+}
